@@ -374,11 +374,18 @@ def rand_desc(rng):
         foreign = [x for x in allids[q] if x not in allids[p]]
         if foreign:
             rng.choice(phases[p]["stmts"])["deps"].append(rng.choice(foreign))
+    targets = list(pn)
+    if rng.random() < 0.25:
+        # a phase without any statement (an idle / placeholder phase): it exists, so it is a legal switch target
+        idle = rng.choice(["idle", "empty", "wait"])
+        phases[idle] = {"stmts": [], "next": rng.choice(pn)}
+        allids[idle] = []
+        targets += [idle, idle]
     if rng.random() < 0.4:
         p = rng.choice(pn)
         last = phases[p]["stmts"][-1]["id"]
         phases[p]["stmts"].append({"id": p + "sw", "kind": "switch",
-                                   "target": rng.choice(pn + [missing_target(rng, pn)]), "deps": [last]})
+                                   "target": rng.choice(targets + [missing_target(rng, pn)]), "deps": [last]})
     if rng.random() < 0.4:
         p = rng.choice(pn)
         nw = rng.choice([1, 1, 2])
